@@ -54,6 +54,10 @@ CLAIMED = {
          "Exploration by runtime monitoring: files of one-line statements, each preceded (or interleaved) on its line with a prefix of one of 26 classes (tabs, short strings with every escape form and 2/3/4-byte characters, line continuations, \\z, long strings and comments of several levels, with or without line breaks) and rendered with LF, CRLF or CR, are loaded into the real server; every range in publishDiagnostics, definition, references, documentHighlight, rename, documentSymbol and workspace/symbol answers must lie inside the client's own text with start <= end and, where it designates a named entity (variables; diagnostics 2/3/4/13/17 quoting a name), cover exactly that identifier; symbol ranges must contain the declared name.",
          "Judged on the client's text only (R-text line/UTF-16 model). Whether the right entity was returned is C05/C06. Symbol selectionRange == range is accepted (LSP allows it). Member names are not queried.",
          "DESIGN.md 3/C04"),
+ "C07": ("online monitor: type 2/3/4/17 diagnostics of the real server vs three-valued expectations computed by the reference binder (R-bind) per read occurrence and per declaration",
+         "Exploration by runtime monitoring: 69 planted expectations (client mode, config-file mode, config-file mode with ignore lists) and thousands of generated multi-file workspaces (every 4th in config-file mode); every read of a name and every local declaration is classified by an independent binder as MUST / MUST-NOT / DON'T-CARE for undefined-variable (2), use-before-definition (3) and unused-local (4) and compared with the published diagnostics at exactly that identifier's range; type 17 must never sit on a local that is read.",
+         "DON'T-CARE: built-in names, the tool's documented idiom suppressions (and/or/==/~=/not operands, conditions, self reference inside the defining statement), definitions that only occur inside function bodies, locals aliasing library names or require results. Consequences of the resolver trigger classes are findings C07-K1..K3.",
+         "DESIGN.md 3/C07"),
 }
 
 PENDING_REASON = "check not built yet in this revision of /verif (work in progress; see DESIGN.md section 3 for the planned monitor)"
